@@ -25,7 +25,7 @@ MANIFEST = {
 }
 MANIFEST["text"] += " " + (
     'Added after the seeding waves: integer labels rotated so that the falsy label 0 lands on interior nodes, a string relabelling that uses the empty string for one node; configurations whose initial radius is attained exactly along one axis by GRID nodes (a start node on a side of the search box); relabellings to large integers and tuples (equal labels that are distinct objects); configurations that continue an early-stopped match with continue_with_distance() and match(expand=True) (index and probability compared).')
-BUDGET = {"quick": 420, "thorough": 3000}
+BUDGET = {"quick": 900, "thorough": 3000}
 RULE = ("states = (input, configuration, transformation) executions, transitions = matcher runs, traces validated = transformed "
         "results compared with the base result; non-trivial = the base match is non-empty; outcomes = base canonical results.")
 ASSUMPTIONS = ["a translation by offset o is compared at relative tolerance 1e-9 + 256 ulp(o): projection points are absolute coordinates",
